@@ -101,7 +101,8 @@ func c05Rows() []Row {
 	for _, a := range as {
 		for _, d := range ds {
 			for _, s := range ss {
-				r := Row{"b": 1 + (i%2)*2, "flag": i%3 == 0}
+				// "__seq__" / "_u": ordinary user columns whose names look like the engine's internal placeholders
+				r := Row{"b": 1 + (i%2)*2, "flag": i%3 == 0, "__seq__": i, "_u": "u"}
 				i++
 				if a != c04Missing {
 					r["a"] = a
